@@ -73,6 +73,7 @@ ids('C11', {1101: 'entry kind (Occupied/Vacant) does not match presence', 1102: 
 ids('C11 C12 C02', {1104: 'entry API: fate of the supplied key/value objects', 1105: 'entry API: key()/into_key() identity'})
 ids('C13', {1301: 'get_disjoint_mut position differs from get_mut', 1302: 'two returned mutable references alias', 1303: 'returned reference outside the map',
              1304: 'write through a returned reference not observed', 1305: 'equal and present keys did not panic', 1306: 'pairwise different keys panicked', 811: 'map changed', 201: ''})
+ids('C15', {211: '', 212: '', 213: '', 214: '', 215: ''})
 ids('C15', {1501: 'clone contents', 1502: 'clone != original', 1503: 'an element was not cloned exactly once / clone does not hold the fresh objects',
             1504: 'clone not independent of the original', 201: '', 202: '', 203: '', 204: '', 205: '', 206: '', 207: '', 208: '', 302: '', 904: ''})
 ids('C16', {1601: 'bulk construction differs from one-by-one insertion', 1602: 'source not consumed exactly once, front to back', 1603: 'overflow panic iff more than N distinct keys',
@@ -160,6 +161,7 @@ fam('c13_disjoint', 'g_misc', [(0, 0), (2, 0), (0, 2), (1, 1), (2, 1), (1, 2), (
 fam('c13_disjoint_tok', 'g_misc', [1, 2, 3], [4, 5])
 fam('c15_clone c15_set_clone c16_from_array c16_set_from_array', 'g_misc', [0, 1, 2, 3], [4, 5], dprofiles=('rel', 'dbg'))
 fam('c15_clone_nodrop', 'g_misc', [1, 2, 3], [4, 5], dprofiles=('rel', 'dbg'))
+fam('c15_clone_from', 'g_misc', [1, 2, 3], [4])
 fam('c16_from_iter', 'g_misc', [(0, 1), (1, 2), (2, 3), (3, 4), (2, 4)], [(3, 5), (4, 5)], profiles=('rel', 'dbg'))
 fam('c16_set_from', 'g_misc', [(1, 2), (2, 3), (3, 4)], [(4, 5)])
 fam('c18_insert_unchecked', 'g_misc', [1, 2, 3], [4, 5], profiles=('rel', 'dbg'))
@@ -183,11 +185,12 @@ fam('c19_map c19_set', 'g_fmt', [(n, w) for n in (0, 1, 2) for w in (0, 1, 2)] +
 fam('c19_map_iters', 'g_fmt', [(1, w) for w in range(9)], [(n, w) for n in (2, 3) for w in range(9)], lto=True, unwind=lambda c: 8)
 fam('c19_set_iters', 'g_fmt', [(1, 1, w) for w in range(3)], [(1, 1, 3)] + [(n, m, w) for (n, m) in ((2, 1), (2, 2)) for w in range(4)], lto=True, unwind=lambda c: 8)   # w=3 (symmetric_difference): 6 min -> thorough
 
+fam('c20_value_de', 'g_serde', [(1, 1), (2, 2), (2, 3), (3, 3)], [], unwind=lambda c: 8)
 fam('c20_bincode_map c20_bincode_set', 'g_serde', [(0, 0), (1, 1), (2, 2), (3, 3), (2, 3), (1, 3)], [(4, 4), (3, 5)], unwind=lambda c: 12)
 
 # --------------------------------------------------------------------------------------- properties
 PROPS = {
-    'C20': dict(fams='c20_bincode_map c20_bincode_set'),
+    'C20': dict(fams='c20_bincode_map c20_bincode_set c20_value_de'),
     'C19': dict(fams='c19_map c19_set c19_nested c19_map_iters c19_set_iters'),
     'C02': dict(fams='c01_insert c01_insert_kv c01_checked_insert c01_lookup c01_remove c01_remove_entry c01_retain c01_clear c01_drain_all '
                      'c10_into_iter c10_into_keys c10_into_values c10_set_into_iter c10_drain c10_set_drain c10_provided c10_set_provided c10_drain_methods c10_set_drain_methods '
@@ -200,7 +203,7 @@ PROPS = {
                 gate='nostd_build'),
     'C17': dict(fams='c17_insert c17_remove c17_lookup c17_disjoint c17_set c17_two'),
     'C13': dict(fams='c13_disjoint c13_disjoint_tok'),
-    'C15': dict(fams='c15_clone c15_set_clone c15_clone_nodrop'),
+    'C15': dict(fams='c15_clone c15_set_clone c15_clone_nodrop c15_clone_from'),
     'C16': dict(fams='c16_from_iter c16_from_array c16_set_from c16_set_from_array c07_extend c07_extend_ref'),
     'C18': dict(fams='c18_insert_unchecked c18_disjoint_unchecked'),
     'C11': dict(fams='c11_or c11_variants c11_key_and_modify '
